@@ -43,7 +43,7 @@ def alphabet(tier):
               "SETFORMAT 1 1",
               "SETPOWER 0", "SETPOWER 10", "SETPOWER", "SETPOWER 1 2", "NOMTXPOWER", "NOMTXPOWER 1",
               "RFMUTE 0", "RFMUTE 1", "RFMUTE 2", "RFMUTE", "RFMUTE 1 1",
-              "SETTA 0", "SETTA 1", "SETTA 63", "SETTA -1", "SETTA", "SETTA 1 2",
+              "SETTA 0", "SETTA 1", "SETTA 63", "SETTA -1", "SETTA 127", "SETTA -128", "SETTA", "SETTA 1 2",
               "FAKE_TOA 10 2", "FAKE_TOA -3 0", "FAKE_TOA 300", "FAKE_TOA -5", "FAKE_TOA", "FAKE_TOA 1 2 3", "FAKE_TOA 0 -1",
               "FAKE_RSSI -80 3", "FAKE_RSSI -80 0", "FAKE_RSSI -80 -1", "FAKE_RSSI 5", "FAKE_RSSI", "FAKE_RSSI 1 2 3",
               "FAKE_CI 90 5", "FAKE_CI -10 0", "FAKE_CI 7", "FAKE_CI", "FAKE_CI 1 2 3", "FAKE_CI 0 -2",
